@@ -28,8 +28,8 @@ RULE = ("case = (first event kind(s), tolerance, transform) with every continuat
 ASSUMPTIONS = ["user-domain and optimizer-domain violations of a synthetic result agree about feasibility"]
 EXHAUSTIVE = {"quick": True, "thorough": True}
 BOUNDS = {"quick": {"history_length": 3}, "thorough": {"history_length": 4}}
-REQUIRED = {"quick": {"histories": 300000, "states_compared": 1500000, "nan_first_histories": 20000, "flip_histories": 100000, "basic_optimizer_runs": 48, "__nontrivial__": 200},
-            "thorough": {"histories": 15000000, "states_compared": 100000000, "nan_first_histories": 1000000, "flip_histories": 5000000, "basic_optimizer_runs": 720, "__nontrivial__": 2000}}
+REQUIRED = {"quick": {"histories": 300000, "states_compared": 1500000, "nan_first_histories": 20000, "flip_histories": 100000, "basic_optimizer_runs": 120, "basic_optimizer_scripted_runs": 25, "basic_results_with_violation_between_default_and_requested_tolerance": 30, "__nontrivial__": 200},
+            "thorough": {"histories": 15000000, "states_compared": 100000000, "nan_first_histories": 1000000, "flip_histories": 5000000, "basic_optimizer_runs": 1200, "basic_optimizer_scripted_runs": 250, "basic_results_with_violation_between_default_and_requested_tolerance": 300, "__nontrivial__": 2000}}
 
 OBJ = [1.0, 2.0, 2.0, 3.0, float("nan")]
 FEAS = ["ok", "v0.1", "v2", "noinfo"]
@@ -50,7 +50,7 @@ def cases(tier, seed):
                     yield {"mode": "exhaustive", "tol": ti, "flip": flip, "prefix": [e0], "L": L}
     for i in range(60 if tier == "quick" else 1500):
         yield {"mode": "sampled", "i": i}
-    for i in range(80 if tier == "quick" else 1200):
+    for i in range(200 if tier == "quick" else 2000):
         yield {"mode": "basic", "i": i}
 
 
@@ -217,8 +217,15 @@ def _basic(case, obs):
     with_con = bool(rng.random() < 0.5)
     nan_calls = set(int(x) for x in rng.choice(12, size=int(rng.integers(0, 4)), replace=False))
     target = rng.normal(size=2)
-    tol = [1e-10, 0.05, None, 0.0][int(rng.integers(4))]
-    cfg = {"variables": {"initial_values": [0.0, 0.0], "lower_bounds": [-2.0, -2.0], "upper_bounds": [2.0, 2.0]},
+    tol = [1e-10, 0.05, None, 0.0, 0.5, 2.0][int(rng.integers(6))]
+    start = [0.0, 0.0]
+    if with_con and rng.random() < 0.7:
+        # the unconstrained optimum violates the constraint and the run may start outside it: the history then holds results
+        # whose violation lies between the default tolerance and the requested one
+        target = np.array([0.6, 0.5]) + rng.normal(size=2) * 0.2
+        if rng.random() < 0.5:
+            start = [1.0, 0.8]
+    cfg = {"variables": {"initial_values": start, "lower_bounds": [-2.0, -2.0], "upper_bounds": [2.0, 2.0]},
            "optimizer": {"method": "slsqp", "max_iterations": 6, "tolerance": 1e-8}, "gradient": {"number_of_perturbations": 3},
            "realizations": {"weights": [1.0, 1.0], "realization_min_success": 0}}
     if with_con:
@@ -239,7 +246,29 @@ def _basic(case, obs):
     seen = []
     opt = BasicOptimizer(cfg, evaluator, transforms=transforms, constraint_tolerance=tol)
     opt.set_results_callback(lambda res, tres=None: seen.append((res, tres if tres else res)), transformed=True)
-    opt.run()
+    if with_con and rng.random() < 0.5:
+        # a scripted algorithm asks for points with designed violations (0, just above the default tolerance, ..., 3.0);
+        # the closer to the (infeasible) target the better the objective, so the requested tolerance decides which is best
+        from vlib import scipy_hook  # noqa: PLC0415
+
+        target[:] = [1.7, 1.7]
+        viols = [0.0, 3e-10, 1e-6, 0.03, 0.3, 1.0, 3.0]
+        order = rng.permutation(len(viols))
+        pts = [np.array([-0.5, -0.5])] + [np.array([0.15 + viols[i] / 2, 0.15 + viols[i] / 2]) for i in order]
+
+        def handler(name, orig, args, kw):
+            fun = kw.get("fun") if kw.get("fun") is not None else args[0]
+            for pnt in pts:
+                fun(pnt.copy())
+
+        with scipy_hook.active(handler) as hook:
+            opt.run()
+        if hook.entered != 1:
+            obs.count("interceptor_not_entered")
+            return
+        obs.count("basic_optimizer_scripted_runs")
+    else:
+        opt.run()
     obs.count("basic_optimizer_runs")
     best, best_obj = [], None
     for res, tres in seen:
@@ -252,6 +281,8 @@ def _basic(case, obs):
                 for vv in (t.constraint_info.bound_violation, t.constraint_info.nonlinear_violation):
                     if vv is not None:
                         viol = max(viol, float(np.max(vv)))
+            if o == o and viol > 1e-10 and (tol is None or viol <= tol):
+                obs.count("basic_results_with_violation_between_default_and_requested_tolerance")
             if o != o or (tol is not None and viol > tol):
                 obs.count("basic_skipped_nan_or_infeasible")
                 continue
